@@ -272,7 +272,8 @@ def run(pid, tier, seed, args, t0):
             'solver_seconds': round(sum(r['seconds'] for r in results), 2),
             'slowest': sorted(((round(r['seconds'], 2), o.name) for o, r in zip(obls, results)), reverse=True)[:5],
             'undischarged': sorted(n for n, v in name_verdict.items() if v != 'unsat'),
-            'callee_contracts_assumed_here_verified_under_other_property': assumed_verified_elsewhere,
+            'callee_contracts_assumed_in_this_check': assumed_verified_elsewhere,
+            'of_which_verified_under_another_property': sorted(q for q in assumed_verified_elsewhere if q in _verified_anywhere()),
             'inlined_callees': sorted(set(sum((fr.inlined for fr in frs), []))),
             'tables': [{'name': t['name'], 'cases': t.get('cases'), 'ok': t['ok'], 'exhaustive': True} for t in table_results],
             'bounded': [{k: v for k, v in b.items() if k != 'violations'} for b in bounded_results],
@@ -361,6 +362,19 @@ def _verify_worker(job):
             'obligations': [{'name': o.name, 'kind': o.kind,
                              'info': {'trace': o.info.get('trace'), 'trivial': o.info.get('trivial', False)},
                              'smt2_tail': getattr(o, 'smt2', '')[-600:], 'result': r} for o, r in zip(keep, res)]}
+
+
+def _verified_anywhere():
+    import glob
+    out = set()
+    for f in glob.glob(os.path.join(HERE, 'props', 'C*.py')):
+        try:
+            ns = {}
+            exec(open(f).read(), ns)
+            out |= set(ns['PROP'].get('functions', []))
+        except Exception:
+            pass
+    return out
 
 
 def _safe(name):
